@@ -67,7 +67,7 @@ func Main(c *hc.Ctx, prop string) error {
 			runs int
 		}
 		w := Weights{1, 1, 1, 1, 1, 1, 1}
-		tinies := []tiny{{Config{Max: 1, Callers: 2, W: w, B: Budget{Cancel: 1, Die: 1, Retry: 0}, MaxSteps: 200}, c.N(2500, 400000)}}
+		tinies := []tiny{{Config{Max: 1, Callers: 2, W: w, B: Budget{Cancel: 1, Die: 1, Retry: 0}, MaxSteps: 200}, c.N(4500, 400000)}}
 		if c.Thorough() {
 			tinies = append(tinies,
 				tiny{Config{Max: 1, Callers: 2, W: w, B: Budget{Cancel: 2, Die: 1, Retry: 1}, MaxSteps: 200}, 400000},
